@@ -43,6 +43,9 @@ def _env(ctx):
         if "np" in mod.__dict__:
             mapping[(m, "np")] = stubs.NPProxy(npr)
     mapping[("xgi.generators.uniform", "int")] = stubs.sint
+    consts = stubs.size_constants(ctx, stubs.GEN_MODULES + ["xgi.drawing.layout", "xgi.utils.utilities"])
+    mapping.update(consts)
+    ctx.info["size_constants"] = sorted(f"{m}.{n}" for m, n in consts)
     return stubs.patched(mapping), py, npr
 
 
@@ -140,6 +143,6 @@ def spec(tier, seed):
         "level": "other",
         "explanation": "Seed determinism decided symbolically for the pure-Python consumers of `random`, `numpy.random` and utils.geometric: each function is executed twice in one path under stubs that name every draw R(stream, position); seeded draws are shared solver variables, ambient draws are fresh ones, the seed is a solver integer in [-3,3] (so falsy seeds are in the space) and z3 searches for draw values that make the two outputs differ. For functions that delegate to networkx (fast_gnp_random_graph, spring_layout) the third-party call is stubbed and only the forwarding of the seed is decided; spectral_clustering (ARPACK start vector, numpy Generator inside k-means on float data) cannot be entered by the stubs and is outside.",
         "bounds": {"functions": sorted(CASES), "seed": "[-3, 3]", "parameters": "one small parameter tuple per function (<= 10 candidate indices)", "geometric": "[1, 6]"},
-        "assumptions": ["random / numpy.random / geometric replaced by stream-tagged stubs", "networkx generators and layouts stubbed: only seed forwarding is decided for them"],
+        "assumptions": ["random / numpy.random / geometric replaced by stream-tagged stubs", "module-level integer constants >= 1000 of the generator/layout modules (size thresholds between two implementations) are solver integers in [0, value], in exploration and in the replay of a counterexample (the unchanged tree has none); a violation found that way is a violation of the real code for inputs above the threshold", "networkx generators and layouts stubbed: only seed forwarding is decided for them"],
         "outside": ["spectral_clustering", "the internals of networkx/scipy random generators"],
     }
